@@ -965,10 +965,8 @@ class ServerSSM(SSM):
             else:
                 raise RuntimeError("invalid segmentation supported in device info")
 
-        # decode the maximum that the client can receive in one APDU, and if
-        # there is a value in the device information then use that one because
-        # it came from reading device object property value or from an I-Am
-        # message that was received
+        # decode the maximum that the client can receive in one APDU, this is
+        # the limit for the answer to this request
         try:
             self.maxApduLengthAccepted = decode_max_apdu_length_accepted(apdu.apduMaxResp)
         except ValueError:
@@ -978,10 +976,13 @@ class ServerSSM(SSM):
             abort = self.abort(AbortReason.other)
             self.response(abort)
             return
+
+        # a value in the device information came from reading the device
+        # object or from an I-Am message that was received, it can lower the
+        # limit but never raise it above what the request says
         if self.device_info and self.device_info.maxApduLengthAccepted is not None:
             if self.device_info.maxApduLengthAccepted < self.maxApduLengthAccepted:
-                if _debug: ServerSSM._debug("    - apduMaxResp encoding error")
-            else:
+                if _debug: ServerSSM._debug("    - device information has a smaller maximum")
                 self.maxApduLengthAccepted = self.device_info.maxApduLengthAccepted
         if _debug: ServerSSM._debug("    - maxApduLengthAccepted: %r", self.maxApduLengthAccepted)
 
